@@ -4936,7 +4936,8 @@ def _from_buffers_key():
 def _wrap_record_with_virtual(input_form):
     def modify(form):
         if form["class"] == "RecordArray":
-            for item in form["contents"].values():
+            contents = form["contents"]
+            for item in contents.values() if isinstance(contents, dict) else contents:
                 modify(item)
         elif form["class"].startswith("UnionArray"):
             for item in form["contents"]:
@@ -4945,11 +4946,16 @@ def _wrap_record_with_virtual(input_form):
             modify(form["content"])
 
         if form["class"] == "RecordArray":
-            for key in form["contents"].keys():
-                form["contents"][key] = {
+            contents = form["contents"]
+            if isinstance(contents, dict):
+                keys = list(contents.keys())
+            else:
+                keys = range(len(contents))
+            for key in keys:
+                contents[key] = {
                     "class": "VirtualArray",
                     "has_length": True,
-                    "form": form["contents"][key],
+                    "form": contents[key],
                 }
 
     form = json.loads(input_form.tojson())
